@@ -1,7 +1,7 @@
 (* C03 - No silent change, no phantom change, consistent counts. *)
 From Coq Require Import List NArith Arith Bool String.
-From WMD Require Import Gen.Tables Lib.Str Lib.PyChars Lib.Escape Lib.Difflib Model.RenderTokens Model.RenderMerge
-     Proofs.DifflibProofs Proofs.DifflibSound Proofs.MergeProofs Proofs.TokenProofs Proofs.AssembleProofs Proofs.RenderProofs Proofs.UrlRuleProofs Proofs.PageWords.
+From WMD Require Import Gen.Tables Lib.Str Lib.PyChars Lib.Escape Lib.Difflib Model.RenderTokens Model.RenderMerge Model.RenderLabelled
+     Proofs.DifflibProofs Proofs.DifflibSound Proofs.MergeProofs Proofs.TokenProofs Proofs.AssembleProofs Proofs.RenderProofs Proofs.UrlRuleProofs Proofs.PageWords Proofs.TextProofs.
 Import ListNotations.
 Open Scope N_scope.
 
@@ -78,6 +78,37 @@ Theorem C03_detection_pages : forall old_root new_root cap,
   change_count (count_changes (token_opcodes None (prepare old_root cap) (prepare new_root cap))) = 0%nat ->
   page_vis old_root = page_vis new_root.
 Proof. exact no_change_same_page_content. Qed.
+
+(* detection stated on the TEXT of the page.  [page_text_e root] = in document order, the non-whitespace
+   characters of every text and tail of the element tree (in the escaped spelling the tokeniser uses) with
+   every opaque element (script, style, svg, select, ... and its tail) as one atom.  It is a function of what
+   the tokens carry (for all trees): splitting into words keeps every non-whitespace character, in order
+   ([C03_words_keep_every_character]), stripping trailing whitespace and escaping do not touch them *)
+Theorem C03_words_keep_every_character : forall text, List.concat (map nws (split_words text)) = nws text.
+Proof. exact split_words_nws. Qed.
+
+Theorem C03_text_is_carried : forall root, vis_text (page_vis root) = page_text_e root.
+Proof. exact page_text_is_carried. Qed.
+
+(* the escaped spelling is an injective recoding: two texts have the same escaped non-whitespace
+   characters exactly when they have the same non-whitespace characters *)
+Theorem C03_escaped_text_faithful : forall quote s t,
+  nws (html_escape quote s) = nws (html_escape quote t) <-> nws s = nws t.
+Proof. exact escaped_text_faithful. Qed.
+
+(* the clause of the property itself: for all element trees and every spacer cap (rules off), if the text of
+   the two pages differs in any non-whitespace character, the reported change count is greater than zero *)
+Theorem C03_detection_text : forall old_root new_root cap,
+  page_text_e old_root <> page_text_e new_root ->
+  (0 < change_count (count_changes (token_opcodes None (prepare old_root cap) (prepare new_root cap))))%nat.
+Proof. exact text_change_is_reported. Qed.
+
+(* a one-character difference (a superscript two instead of a two) in a page that is otherwise the same *)
+Example C03_detection_text_example :
+  let page (w : string) := El (s2l "html"%string) [] [] [El (s2l "body"%string) [] [] [El (s2l "p"%string) [] (s2l "Area "%string ++ s2l w ++ s2l " m"%string) [] (s2l " "%string) []] [] []] [] [] in
+  page_text_e (page "10"%string) <> page_text_e (page "1O"%string) /\
+  (0 < change_count (count_changes (token_opcodes None (prepare (page "10"%string) 2500) (prepare (page "1O"%string) 2500))))%nat.
+Proof. vm_compute. split; [discriminate|repeat constructor]. Qed.
 
 (* every block the matcher returns relates its elements pairwise (dict key or ==), for any sequences *)
 Theorem C03_blocks_sound : forall rules (old new : list token) alo ahi blo bhi,
